@@ -339,7 +339,8 @@ class Check:
         if not os.environ.get("VERIF_NO_EVIDENCE"):
             json.dump(ev, open(os.path.join(EVID, self.pid + ".json"), "w"), indent=1)
         print("%s %s: %s in %.1fs; coverage: %s" % (
-            self.pid, self.tier, "VIOLATIONS=%d" % len(self.violations) if rc else "ok",
+            self.pid, self.tier, "VIOLATIONS=%d" % len(self.violations) if rc else
+            ("INCONCLUSIVE (exit 2, no verdict)" if any(str(n).startswith("inconclusive") for n in self.notes) else "ok"),
             time.time() - self.t0,
             {k: v for k, v in self.cov.items() if isinstance(v, (int, float, bool))}))
         return rc
